@@ -1,4 +1,4 @@
-* C06 extension ATTACK: low flight is allowed 320 u (61 NM) from the airfield: TLC must refute SafeAllCex (a far low
+\* C06 extension ATTACK: low flight is allowed 320 u (61 NM) from the airfield: TLC must refute SafeAllCex (a far low
 \* aircraft drags the reference off; a surface report of another aircraft lands one zone away); SafeM must still hold
 SPECIFICATION Spec
 INVARIANT RefProvenance
